@@ -108,3 +108,39 @@ extern "C" void harness_reuse_vs_fresh() {
   VA(rd.minima_list_.size() == 1 && rd.vertex_lists_.size() == 1);
   verif_reach();
 }
+
+#ifndef OHE
+#define OHE 0
+#endif
+// C05: an open subject that ENDS in a horizontal segment strictly inside the clip polygon, with clip edges further along the same
+// scanline (whole pipeline, concrete geometry; clip type Intersection, fill rule symbolic; ReverseSolution/PreserveCollinear symbolic).
+// The pieces must lie on the subject: exactly the subject itself comes back (it lies wholly inside the clip square), it does not run
+// on to the clip boundary, and the closed solution is empty.
+extern "C" void harness_open_horizontal_end() {
+  Paths64 open_subj(1), clip(1);
+#if OHE == 0     // a single horizontal segment
+  open_subj[0].push_back(P(20, 50)); open_subj[0].push_back(P(60, 50));
+  const int n_in = 2;
+#else            // rises, then ends with a horizontal segment at the top of its bound
+  open_subj[0].push_back(P(30, 80)); open_subj[0].push_back(P(20, 50)); open_subj[0].push_back(P(60, 50));
+  const int n_in = 3;
+#endif
+  clip[0].push_back(P(0, 0)); clip[0].push_back(P(100, 0)); clip[0].push_back(P(100, 100)); clip[0].push_back(P(0, 100));
+  Clipper64 c; c.ReverseSolution(nondet_bool()); c.PreserveCollinear(nondet_bool());
+  c.AddOpenSubject(open_subj); c.AddClip(clip);
+#ifdef OHE_FR     // the fill rule steers the sweep: one obligation per rule (symbolic, no verdict in 25 min)
+  FillRule fr = (FillRule)OHE_FR;
+#else
+  FillRule fr = (FillRule)nd_int(0, 3);
+  ASSUME(fr != FillRule::Negative);      // the square is positively oriented: with Negative nothing is inside the clip region
+#endif
+  Paths64 closed, open;
+  VA(c.Execute(ClipType::Intersection, fr, closed, open));
+  VA(closed.empty());
+  VA(open.size() == 1); ASSUME(open.size() == 1);
+  VA((int)open[0].size() == n_in); ASSUME((int)open[0].size() == n_in);
+  bool fwd = true, bwd = true;
+  for (int i = 0; i < n_in; ++i) { if (!(open[0][i] == open_subj[0][i])) fwd = false; if (!(open[0][i] == open_subj[0][n_in - 1 - i])) bwd = false; }
+  VA(fwd || bwd);
+  verif_reach();
+}
